@@ -226,3 +226,30 @@ fn parse_dns_server(entry: &str) -> std::io::Result<SocketAddr> {
         format!("invalid DNS server '{}'", entry),
     ))
 }
+
+/// Verification hooks (compiled only with `--cfg anytls_rs_verif`).
+#[cfg(anytls_rs_verif)]
+pub mod dns_verif_hooks {
+    use std::net::SocketAddr;
+    use std::time::{Duration, Instant};
+
+    /// Pre-seed the resolver cache for `host` with `addresses`, as if it had been
+    /// filled `age` ago (names that cannot be resolved offline; entry ages).
+    pub async fn dns_cache_seed(host: &str, addresses: Vec<SocketAddr>, age: Duration) {
+        let mut cache = super::DNS_CACHE.inner.write().await;
+        let now = Instant::now();
+        let expires_at = (now + super::DEFAULT_TTL).checked_sub(age).unwrap_or(now);
+        cache.insert(
+            host.to_string(),
+            super::CacheEntry {
+                addresses,
+                expires_at,
+                next_index: 0,
+            },
+        );
+    }
+
+    pub async fn dns_cache_clear() {
+        super::DNS_CACHE.clear().await;
+    }
+}
